@@ -106,8 +106,10 @@ def check_converge(case):
         except Exception as exc:  # noqa
             raise lib_exception_failure(exc, "startup")
         dep, client = st_.dep, st_.client
+        snooper_index = len(case["devices"])
+        specs = dep.specs  # the deployment may have added instances of base classes as devices of their own
         snooped = specs[0]["name"]
-        snoop = st_.in_loop(lambda: dep.drivers[-1].snoop_device(snooped))
+        snoop = st_.in_loop(lambda: dep.drivers[snooper_index].snoop_device(snooped))
         fresh = {}  # (d, vec, el) -> True when the BLOB was assigned within the current definition epoch, after a settle
         redef_pending = set()  # (d, vec) redefined since the last settle
 
@@ -115,8 +117,35 @@ def check_converge(case):
             d = [i for i, s in enumerate(specs) if s["name"] == dn][0]
             return "equal" if fresh.get((d, vn, en)) else "equal-or-absent"
 
+        need_blob = {}  # (d, vec) -> offset in the BLOB connection's server output when the property was last (re)enabled
+
+        def check_blob_republished():
+            """After a property with a set BLOB becomes visible again through an enable toggle, the server must have
+            written a setBLOBVector with the current payload on the BLOB connection since then (whatever the
+            cross-connection arrival order does to the client's copy)."""
+            import base64
+
+            raw = bytes(st_.blob.link.b_writer.all)
+            for (d, vn), off in list(need_blob.items()):
+                g, v = [(g, v) for g, v in dep.vectors[d] if v["name"] == vn][0]
+                if not dep.is_enabled(d, g, v):
+                    continue
+                inst = dep.instance(d, g, v)
+                els = gen.split_elements(raw[off:].decode("latin1"))
+                sets = [e for e in els if e.tag == "setBLOBVector" and e.get("device") == specs[d]["name"] and e.get("name") == vn]
+                for e in v["elements"]:
+                    if not e["enabled"]:
+                        continue
+                    val = getattr(inst, e["attr"])._value
+                    if val is None or len(val.binary) == 0:
+                        continue
+                    ok = any(base64.b64decode((c.text or "")) == val.binary for s_ in sets for c in s_ if c.get("name") == e["name"])
+                    if not ok:
+                        raise Failure("blob-not-republished-after-enable", f"{specs[d]['name']}.{vn}.{e['name']}: {len(val.binary)} bytes held by the driver, no setBLOBVector with them on the BLOB connection since the property was enabled again")
+
         def verify(tag):
             try:
+                check_blob_republished()
                 stack.compare_views(dep, client, blob_mode, who="network-client")
                 stack.compare_views(dep, snoop, lambda *a: "equal-or-absent", who="snooping-client", only=snooped, blob_state=False)
                 check_wire(dep, bytes(st_.control.link.b_writer.all))
@@ -140,6 +169,7 @@ def check_converge(case):
             try:
                 if t == "handshake":
                     st_.in_loop(lambda: client.handshake(), settle=False)
+                    need_blob.clear()  # a definition elicited by getProperties carries no payload: nothing to republish
                     for d in range(len(specs)):
                         for g, v in dep.vectors[d]:
                             redef_pending.add((d, v["name"]))
@@ -169,8 +199,16 @@ def check_converge(case):
                     d, g, v = (None, None, None)
                     if t != "genable":
                         d, g, v = dep.pick(op)
+                    blob_off = len(st_.blob.link.b_writer.all)
                     lab = st_.in_loop(lambda: dep.apply(op), settle=False)
                     labels.add(lab.split("-")[0])
+                    if t in ("venable", "genable") and op["on"]:
+                        dd = op["d"] % len(specs)
+                        for gg, vv in dep.vectors[dd]:
+                            if vv["kind"] == "BLOB" and (t == "genable" or (gg is g and vv is v)) and dep.is_enabled(dd, gg, vv):
+                                if t == "venable" or gg["attr"] == list(drivers.effective_groups(specs[dd]).values())[op["g"] % len(drivers.effective_groups(specs[dd]))]["attr"]:
+                                    need_blob[(dd, vv["name"])] = blob_off
+                                    labels.add("blob-property-reenabled")
                     if t == "venable":
                         toggles += 1
                         redef_pending.add((d, v["name"]))
